@@ -399,8 +399,20 @@ SegAfter(pre, e, post) ==
   ELSE gh.seg
 
 -----------------------------------------------------------------------------
+(* C12: the Anchor handler (run on a copy of the bank through a dispatcher that bypasses the
+   Pinocchio routing) and the Pinocchio handler (the real run) agree on the return code, on every
+   byte of every account, and on the emitted events.                                           *)
+DualOK(e) ==
+  \/ ~e.dual.present
+  \/ /\ Sub("same_error", e.dual.codeAnchor \doteq e.dual.codePino)
+     /\ Sub("no_panic", ~e.dual.panicAnchor /\ ~e.dual.panicPino)
+     /\ Sub("same_bytes", e.dual.differing = <<>>)
+     /\ Sub("same_events", e.dual.sameEvents)
+
 (* the per-event transition *)
 IxOK(pre, e, post) ==
+  /\ Chk("C12", "anchor_equals_pinocchio", DualOK(e))
+  /\ Chk("C12", "entrypoint_routing", e.routing \in {"none", "same"})
   /\ Chk("C05", "liq_sum", \A p \in DOMAIN post.pool : LiqSum(post, p))
   /\ Chk("C05", "tick_sums", \A p \in DOMAIN post.pool : TickSums(post, p))
   /\ Chk("C01", "solvent", Solvent(post))
@@ -428,6 +440,8 @@ IxOK(pre, e, post) ==
      ELSE TRUE
 
 IxFailed(pre, e) ==
+  /\ Chk("C12", "anchor_equals_pinocchio_on_failure", DualOK(e))
+  /\ Chk("C12", "entrypoint_routing_on_failure", e.routing \in {"none", "same"})
   /\ Chk("ANY", "must_succeed", ~e.must)
   /\ Chk("ANY", "atomic", EmptyDiff(e.diff))
 
